@@ -146,6 +146,14 @@ for loc in LOCS:
         feats = [Feature("CDS", [loc], dict(qual))]
         R.check("GenBank annotation round trip", f"genbank 1 feature {loc.defect} {loc.strand}", {"features": repr(feats)},
                 lambda feats=feats: gb_annot(feats, False))
+# qualifier values: empty string, flag without value (None), several values, quotes, long values that wrap
+QUALS = [{"note": ""}, {"pseudo": None}, {"note": "", "pseudo": None, "gene": "abcA"}, {"db_xref": "GI:1\nGI:2"},
+         {"note": "a very long note " * 8}, {"product": "5'-3' exonuclease"}, {"codon_start": "1", "note": "x=y; z"}]
+for qual in QUALS:
+    feats = [Feature("CDS", [Location(2, 9)], dict(qual)), Feature("gene", [Location(1, 12)], {"gene": "g"})]
+    for with_seq in (False, True):
+        R.check("GenBank annotation round trip", "genbank qualifier values", {"qualifiers": repr(qual), "with_sequence": with_seq},
+                lambda feats=feats, with_seq=with_seq: gb_annot(feats, with_seq))
 for a, b in itertools.combinations(LOCS[:8], 2):
     if a.strand == b.strand:
         feats = [Feature("gene", [a, b], {"gene": "j"})]
